@@ -102,6 +102,28 @@ void hook_up_mode() {
     check_listener(0, 1, n, true, "hook_up disconnect");
 }
 
+
+// signal<void>: nothing is carried, every waiting listener is woken once per call
+cocls::async<void> void_listener(cocls::signal<void>::emitter em, int i) {
+    for (;;) { try { co_await em; dsim::cell_add(NLOG + i, 1); } catch (const cocls::await_canceled_exception &) { dsim::cell_add(ENDED + i, 1); co_return; } }
+}
+void void_signal() {
+    int nl = 1 + dsim::choose(5), nem = dsim::choose(5); int join_at[6];
+    for (int i = 0; i < nl; i++) join_at[i] = dsim::choose(nem + 1);
+    dsim::plan_note("void signal listeners=%d emissions=%d", nl, nem);
+    auto sig = std::make_unique<cocls::signal<void>>();
+    int calls = 0; sig->connect([&calls]() { calls++; return true; });
+    for (int k = 0; k <= nem; k++) {
+        for (int i = 0; i < nl; i++) if (join_at[i] == k) void_listener(sig->get_emitter(), i).detach();
+        if (k == nem) break;
+        sig->get_collector()();
+        for (int i = 0; i < nl; i++) { long want = join_at[i] <= k ? k - join_at[i] + 1 : 0; if (dsim::cell_get(NLOG + i) != want) dsim::fail(dsim::cell_get(NLOG + i) < want ? "C15.missed" : "C15.extra", "void signal: listener %d joined before emission %d, woken %ld times after emission %d", i, join_at[i] + 1, dsim::cell_get(NLOG + i), k + 1); }
+        if (calls != k + 1) dsim::fail("C15.callback", "void signal: callback called %d times after %d emissions", calls, k + 1);
+    }
+    sig.reset();
+    for (int i = 0; i < nl; i++) if (dsim::cell_get(ENDED + i) != 1) dsim::fail("C15.disconnect", "void signal: listener %d saw await_canceled_exception %ld times at disconnect", i, dsim::cell_get(ENDED + i));
+}
+
 void multi_thread() {
     int nl = 1 + dsim::choose(4), nem = 1 + dsim::choose(5);
     int quota[MAXL]; for (int i = 0; i < nl; i++) quota[i] = dsim::choose(3) == 0 ? 1 + (int)dsim::choose(3) : -1;
@@ -140,6 +162,6 @@ void multi_thread() {
 }
 
 void dsim_scenario() {
-    int mode = dsim::choose(4);
-    if (mode == 0 || mode == 3) single_thread(); else if (mode == 1) hook_up_mode(); else multi_thread();
+    int mode = dsim::choose(5);
+    if (mode == 0 || mode == 3) single_thread(); else if (mode == 1) hook_up_mode(); else if (mode == 4) void_signal(); else multi_thread();
 }
